@@ -222,6 +222,7 @@ class World:
         self.hash = hashlib.sha256()
         self.trace = []  # (kind, outcome class)
         self.oprecs = {}  # id(op) -> OpRec
+        self.last_create = None
         self.scope_stack = []  # model M4: list of (mgr name, saved value)
         # scopes held open outside the call stack (suspended generator / ExitStack / manual
         # __enter__): they can be left in any order relative to scopes of the *other* setting
@@ -597,6 +598,71 @@ class World:
         const = c if c is not None else (not fl)
         nid = self.tape.leaf(data, const)
         self._new_tinfo(h, t, const, nid)
+        return Outcome("ok")
+
+    CREATE_DT = {"f8": np.float64, "f4": np.float32, "f2": np.float16, "i8": np.int64, "i4": np.int32, "b1": np.bool_, "c16": np.complex128, "float": float, "int": int}
+
+    def ev_create(self, ev):
+        """a creation routine called with explicit arguments: same values, shape and dtype as the
+        NumPy namesake (zeros/ones/empty default to float32 as documented), a detached tensor with
+        the flag the rules give; non-real dtypes are refused exactly while tracking is on"""
+        h, fn = ev["out"], ev["fn"]
+        if h in self.T:
+            return self._skip("dup")
+        like = ev.get("like")
+        if like is not None and not self.has(like):
+            return self._skip("ref")
+        kw = dict(ev.get("kw", {}))
+        c = kw.pop("constant", None)
+        if "dtype" in kw:
+            kw["dtype"] = self.CREATE_DT[kw["dtype"]]
+        if "shape" in kw and isinstance(kw["shape"], list):
+            kw["shape"] = tuple(kw["shape"])
+        args = [tuple(a["shape"]) if isinstance(a, dict) and "shape" in a else (dec_arr(a["n"]) if isinstance(a, dict) and "n" in a else a) for a in ev.get("pargs", [])]
+        np_kw = dict(kw)
+        if fn in ("zeros", "ones", "empty") and "dtype" not in np_kw:
+            np_kw["dtype"] = np.float32  # the documented default
+        try:
+            if like is not None:
+                ref = getattr(np, fn)(np.asarray(self.shadow(like)), *args, **np_kw)
+            else:
+                ref = getattr(np, fn)(*args, **np_kw)
+            ref = np.asarray(ref)
+        except Exception:
+            return self._skip("shadow")
+        real_dt = ref.dtype.kind in "fiub"
+        fl = is_float(ref.dtype)
+        expect_fail = self.tracking and ((not real_dt) or (c is False and not fl))
+        mkw = dict(kw)
+        if c is not None:
+            mkw["constant"] = c
+        try:
+            if like is not None:
+                t = getattr(mg, fn)(self.real(like), *args, **mkw)
+            else:
+                t = getattr(mg, fn)(*args, **mkw)
+        except Exception as e:
+            st = "fail" if expect_fail else "unexp"
+            return Outcome(st, type(e).__name__, str(e)[:200], expected_fail=expect_fail)
+        # the *_like routines infer the flag from their argument like any operation does: an array
+        # (or list) is a constant, a tensor carries its own flag
+        like_const = None if like is None else (bool(self.T[like["t"]].constant) if "t" in like else True)
+        self.last_create = {"fn": fn, "ref": ref, "t": t, "constant": c, "like_const": like_const, "expect_fail": expect_fail, "values": fn not in ("empty", "empty_like")}
+        if expect_fail:
+            del t
+            return Outcome("nofail")
+        if not isinstance(t, Tensor) or not real_dt or t.data.shape != ref.shape or t.data.dtype != ref.dtype or fn in ("empty", "empty_like"):
+            # judged by the oracle; nothing to register (and the uninitialised memory of empty()
+            # must never enter the history: it is not a function of the seed)
+            del t
+            return Outcome("ok")
+        self.T[h] = t
+        self.S[h] = np.array(ref, copy=True)
+        const = bool(t.constant)
+        nid = self.tape.leaf(np.asarray(self.S[h], dtype=np.float64), const)
+        i = self._new_tinfo(h, t, const, nid)
+        i.made_by = "create:" + fn
+        del t
         return Outcome("ok")
 
     def ev_arr(self, ev):
